@@ -3,6 +3,7 @@ import Zeno.Proofs.Depth
 import Zeno.Proofs.Life
 import Zeno.Proofs.Warc
 import Zeno.Gen.Stages
+import Zeno.Model.Scope
 import Zeno.Gen.Item
 import Zeno.Gen.Archiver
 /-!
@@ -174,5 +175,24 @@ example :
     idsOK S I {} [o1, o1, o1] [] seed = true ∧
     (life S I { maxRedirect := 1 } [o2, o2, o2, o2] [] seed).1 = 2 ∧ idsOK S I { maxRedirect := 1 } [o2, o2, o2, o2] [] seed = true := by
   decide +kernel
+
+/-! ### the depth and capture tests as written now
+
+`S.postEarlyGuards` = the arms of the `if / else if` chain of `postprocessItem()` that complete an archived item without extracting anything
+from it, translated from the source on every run (an arm reached through `else if` carries the negation of the arms before it). -/
+
+open Zeno.Model.Scope in
+/-- the translated chain takes the decision the model's `postAct` takes, for **every** depth, hop limit and flag combination: an item more
+than two levels below the page (redirections not counted), an HTML document found as a requisite, or anything when assets capture is off and
+no hop is allowed - unless domains crawl is active -/
+theorem c06_depth_tests_translated (e : PEnv) : completesEarly S.postEarlyGuards e = modelCompletesEarly S e := by
+  obtain ⟨dc, depth, html, da, mh⟩ := e
+  have hcut : S.depthCut = 2 := by decide
+  have hop : S.depthCutOp = .gt := by decide
+  have hrule : S.disableAssetsRule = "whenNoHops" := by decide
+  simp only [modelCompletesEarly, hcut, hop, hrule]
+  simp only [completesEarly, S, Zeno.Gen.Stages.facts, List.any_cons, List.any_nil, PCond.eval, PAtom.eval, Cmp.eval, Bool.or_false]
+  cases dc <;> cases html <;> cases da <;> by_cases h1 : (2 : Int) < depth <;> by_cases h2 : depth = 1 <;> by_cases h3 : mh = 0 <;>
+    simp [h1, h2, h3] <;> omega
 
 end Zeno.Props.C06
